@@ -19,11 +19,18 @@ type WorldScenario struct {
 	Setup   func(w *harness.World)
 	Threads []func(w *harness.World)
 	Finish  func(w *harness.World)
+	// Dynamic, when set, builds the threads from explorer choices (operation
+	// mixes); it runs after Setup.
+	Dynamic func(w *harness.World) ([]func(w *harness.World), string)
+	// SigWithMix makes the mix part of every violation signature, so that a
+	// known finding can be listed per failing mix.
+	SigWithMix bool
 }
 
 func (sc *WorldScenario) Exec() explore.Exec {
 	return func(c *explore.Chooser) *explore.Outcome {
 		var w *harness.World
+		mix := ""
 		res := harness.RunExec(c, true, 0, func() {
 			w = harness.NewWorld(sc.Mon, 0, sc.Keys, false)
 			sc.Setup(w)
@@ -31,8 +38,12 @@ func (sc *WorldScenario) Exec() explore.Exec {
 				return
 			}
 			done := 0
-			n := len(sc.Threads)
-			for _, th := range sc.Threads {
+			threads := sc.Threads
+			if sc.Dynamic != nil {
+				threads, mix = sc.Dynamic(w)
+			}
+			n := len(threads)
+			for _, th := range threads {
 				th := th
 				harness.Go(func() {
 					th(w)
@@ -48,14 +59,17 @@ func (sc *WorldScenario) Exec() explore.Exec {
 		out := &explore.Outcome{}
 		if w != nil {
 			for _, v := range w.Viols {
-				out.Viols = append(out.Viols, explore.Viol{Oracle: v.Oracle, Sig: v.Sig, Msg: sc.Name + ": " + v.Msg})
+				if sc.SigWithMix {
+					v.Sig += "@" + strings.TrimSpace(mix)
+				}
+				out.Viols = append(out.Viols, explore.Viol{Oracle: v.Oracle, Sig: v.Sig, Msg: sc.Name + mix + ": " + v.Msg})
 			}
-			out.Sample = fmt.Sprintf("%s: %d scheduling choices; log: %s", sc.Name, len(c.Points), strings.Join(w.Log, " | "))
+			out.Sample = fmt.Sprintf("%s%s: %d choices; log: %s", sc.Name, mix, len(c.Points), strings.Join(w.Log, " | "))
 			out.ObsHash = harness.HashString(strings.Join(w.Log, "|"))
 			out.StateHash = out.ObsHash
 		}
 		out.Transitions = int(res.Points)
-		out.NonTrivial = res.Switches > int64(len(sc.Threads))
+		out.NonTrivial = res.Switches > 2
 		out.Viols = append(out.Viols, verdictViol(res, []string{sc.Name})...)
 		return out
 	}
